@@ -197,6 +197,23 @@ func (g *gstate) get() {
 		}
 	}
 	g.emit("%s %s", op, cidStr(c))
+	// read - modify the referenced region in place (same length; the executor restores the file's
+	// mtime) - read again: a verification result must never be reused across a content change
+	if rf := g.refs[m]; rf != nil && op != "vget" && g.r.Chance(1, 4) && !strings.HasPrefix(rf.path, "http") {
+		if f := g.files[rf.path]; f != nil && f.kind == "file" && rf.size > 0 && rf.off+rf.size <= uint64(len(f.data)) {
+			d := append([]byte{}, f.data...)
+			d[rf.off+uint64(g.r.Intn(int(rf.size)))] ^= byte(1 << g.r.Intn(8))
+			f.data = d
+			g.emit("fwrite %s %s", rf.path, vh.Hex(d))
+			for _, reg := range g.regions(rf) {
+				g.h(cid.NewCidV1(cid.Raw, c.Hash()), reg)
+			}
+			if d2, ok := g.inner[m]; ok && op == "fsget" {
+				g.h(c, d2)
+			}
+			g.emit("%s %s", op, cidStr(c))
+		}
+	}
 }
 
 func gen(r *vh.Rand, tier string, n int, emit func(vh.Case)) {
@@ -597,8 +614,20 @@ func exec(c vh.Case, o *vh.Out) {
 			emitErr(o, inner.DeleteBlock(ctx, cid.NewCidV1(cid.Raw, vh.UnHex(f[1]))))
 		case "fwrite":
 			p := filepath.Join(root, f[1])
+			data := vh.UnHex(f[2])
+			if st, err := os.Stat(p); err == nil && st.Mode().IsRegular() && st.Size() == int64(len(data)) {
+				// same-length rewrite: in place (same inode) and with the old mtime put back, like
+				// rsync -t / cp -p / a write within one timestamp tick - file metadata says "unchanged"
+				err := os.WriteFile(p, data, 0o644)
+				if err == nil {
+					err = os.Chtimes(p, st.ModTime(), st.ModTime())
+				}
+				o.Kind("fwrite-inplace-mtime-kept")
+				emitErr(o, err)
+				continue
+			}
 			os.RemoveAll(p)
-			emitErr(o, os.WriteFile(p, vh.UnHex(f[2]), 0o644))
+			emitErr(o, os.WriteFile(p, data, 0o644))
 		case "frm":
 			emitErr(o, os.RemoveAll(filepath.Join(root, f[1])))
 		case "fdir":
